@@ -1,6 +1,7 @@
 package api
 
 import (
+	"github.com/kubeshark/base/pkg/verifhook"
 	"sync/atomic"
 	"time"
 )
@@ -81,6 +82,7 @@ func (as *AppStats) DumpStats() *AppStats {
 
 func resetUint64(ref *uint64) (val uint64) {
 	val = atomic.LoadUint64(ref)
+	verifhook.Yield("stats.reset.mid")
 	atomic.StoreUint64(ref, 0)
 	return
 }
